@@ -11,6 +11,27 @@ def install():
     import artap.utils as U
     import artap.doe as DOE
     stubs.install((U, 'random', stubs.s_random), (U, 'int', ops.sint))
+    if not getattr(DOE.halton, '_symx_wrapped', False):
+        real_halton = DOE.halton
+        alias = {}
+
+        def halton(*a, **k):
+            """The real halton(); while a symbolic path runs, its float matrix is handed on as an OBJECT array so that
+            code scaling it with symbolic bounds -- also in place -- stays executable.  Aliasing is kept: the same float
+            matrix object (e.g. out of a cache) always maps to the same object array."""
+            r = real_halton(*a, **k)
+            c = core.cur()
+            if c is None or not c.symbolic or not isinstance(r, np.ndarray):
+                return r
+            ent = alias.get(id(r))
+            if ent is None or ent[0] is not r:
+                if len(alias) > 256:
+                    alias.clear()
+                ent = (r, r.astype(object))
+                alias[id(r)] = ent
+            return ent[1]
+        halton._symx_wrapped = True
+        DOE.halton = halton
     return DOE
 
 
